@@ -257,3 +257,33 @@ Proof.
   split; [exact Hr0|]. split; [exact Hr|]. split; [reflexivity|]. split; [reflexivity|].
   split; [exact Hc|]. rewrite (sample_on_records [] _ _ _ _ _ _ _ _ _ r 0 1 [] eq_refl). reflexivity.
 Qed.
+
+(** ** Wavefront._generate_data: one cell per (field, wavelength), each the field data of that pair *)
+Lemma nthZ_of_nat {A} (l : list A) (i : nat) : nthZ l (Z.of_nat i) = nth_error l i.
+Proof.
+  unfold nthZ. cbv zeta.
+  assert (E0 : (Z.of_nat i <? 0)%Z = false) by (apply Z.ltb_ge; lia). rewrite !E0. cbn [orb].
+  destruct (Z.leb_spec (Z.of_nat (List.length l)) (Z.of_nat i)) as [H|H].
+  - cbn [orb]. symmetry. apply nth_error_None. lia.
+  - cbn [orb]. rewrite Nat2Z.id. reflexivity.
+Qed.
+
+Theorem generate_data_entry :
+  forall (lens : R -> list (surf ROps)) ps (c : wfcfg ROps) lc fields wls dist (d : wfdata (O:=ROps)),
+    generate_data (O:=ROps) lens ps c lc fields wls dist = Some d ->
+    List.length d = List.length fields /\
+    forall i j f w, nth_error fields i = Some f -> nth_error wls j = Some w ->
+      field_data (lens w) (pupil_z_of ps) c lc w (f_Hx f) (f_Hy f) (f_vx f) (f_vy f) dist
+      = Some (wf_cell (wf_row d (Z.of_nat i)) (Z.of_nat j)).
+Proof.
+  intros lens ps c lc fields wls dist d H. unfold generate_data in H.
+  pose proof (sequence_length _ _ H) as Hl. rewrite map_length in Hl. split; [exact Hl|].
+  intros i j f w Hi Hj.
+  pose proof (sequence_nth _ _ H i) as Hn. rewrite nth_error_map, Hi in Hn. cbn [option_map] in Hn.
+  unfold wf_row, wf_cell. rewrite !nthZ_of_nat.
+  rops. revert Hn. destruct (@nth_error (list (list R * list R)) d i) as [row|] eqn:Er; cbn [option_map]; intros Hn; [|discriminate].
+  injection Hn as Hn.
+  pose proof (sequence_nth _ _ Hn j) as Hm. rewrite nth_error_map, Hj in Hm. cbn [option_map] in Hm.
+  revert Hm. destruct (@nth_error (list R * list R) row j) as [cell|] eqn:Ec; cbn [option_map]; intros Hm; [|discriminate].
+  injection Hm as Hm. exact Hm.
+Qed.
